@@ -122,7 +122,10 @@ def run_shard(sink, tier, seed, shard):
     for idx in range(i0, n_trees, step):
         c = harness.make_case('c01', seed, idx)
         for o in harness.opts_for(idx, k, opts):
-            sink.guard('harness', 'case', dict(c.ident(), opt=repr(o)), lambda: check_case(sink, c, o))
+            with harness.reentrant(idx % 8 == 0):
+                sink.guard('harness', 'case', dict(c.ident(), opt=repr(o)), lambda: check_case(sink, c, o))
+            if idx % 8 == 0:
+                sink.count('cases-with-re-entrant-callbacks')
     sink.extra['trees'] = len(range(i0, n_trees, step))
 
 
